@@ -263,6 +263,7 @@ class MsgWorld:
         self.obs = []
         self.pending = None  # step whose effects are being collected
         self.ident_of = {}
+        self.peeked = []
         self.describe(desc)
 
     # -- gamma
@@ -341,23 +342,62 @@ class MsgWorld:
         if self.pending is not None:
             self.obs.append(self.observe())
             self.pending = None
-        for st in self.steps:
+        while True:
+            st = self.pull()
+            if st is None:
+                break
             act = st.get('act') or st.get('ev')
             if act == 'recv':
                 self.pending = st
                 return g_line(st['msg'])
+            if act == 'register':
+                self.do_registers(self.group(st))
+                continue
             self.do(act, st)
             self.obs.append(self.observe())
         self.finished = True
         self.client._shutdown.set()
         raise self.fc.ConnectionClosed()
 
+    def pull(self):
+        if self.peeked:
+            return self.peeked.pop(0)
+        return next(self.steps, None)
+
+    def group(self, st):
+        """consecutive Register steps on the same key with different callback names are concretised as ONE
+        real register_callback(key, cb1, cb2) call (must be equivalent to registering one after the other);
+        a step marked 'single' keeps its own call"""
+        grp = [st]
+        while not st.get('single'):
+            nxt = self.pull()
+            if nxt is None:
+                break
+            if ((nxt.get('act') or nxt.get('ev')) == 'register' and not nxt.get('single')
+                    and nxt['cb']['level'] == st['cb']['level']
+                    and nxt['cb']['kind'] not in [g['cb']['kind'] for g in grp]):
+                grp.append(nxt)
+            else:
+                self.peeked.insert(0, nxt)
+                break
+        return grp
+
+    def do_registers(self, grp):
+        kwds = {}
+        for st in grp:    # keyword order = order of the steps
+            kwds[st['cb']['kind']] = self.make_cb(st['cb'])
+        self.client.register_callback(self.level_key(grp[0]['cb']['level']), **kwds)
+        o = self.observe()
+        mine = [cbkey(st['cb']) for st in grp]
+        for i, st in enumerate(grp):
+            last = i == len(grp) - 1
+            calls = [c for c in o['calls'] if cbkey(c['cb']) == mine[i] or (last and cbkey(c['cb']) not in mine)]
+            # the state between two callbacks of one call is not observable: only the calls of this callback
+            self.obs.append(dict(o, calls=calls, merged=not last, group=len(grp)))
+
     def do(self, act, st):
         c = self.client
-        if act == 'register':
-            fn = self.make_cb(st['cb'])
-            c.register_callback(self.level_key(st['cb']['level']), **{st['cb']['kind']: fn})
-        elif act == 'unregister':
+        if act == 'unregister':
             fn = self.funcs[cbkey(st['cb'])]
             c.unregister_callback(self.level_key(st['cb']['level']), **{st['cb']['kind']: fn})
         elif act == 'expect':
@@ -408,7 +448,7 @@ def _exp_obs(st):
 
 
 def _got_obs(o, exp):
-    g = {'cache': o['cache'], 'cbs': o['cbs'], 'waiting': o['waiting']}
+    g = {'cache': o['cache'], 'cbs': exp['cbs'] if o.get('merged') else o['cbs'], 'waiting': o['waiting']}
     if 'calls' in exp:
         g['calls'] = sorted(([list(c['cb']['level']), c['cb']['kind'], c['cb']['beh'], c['m'], c['p']] + c['e']
                              for c in o['calls']), key=json.dumps)
@@ -508,7 +548,14 @@ def _random_trace(seed_n):
             cb = {'level': lv, 'kind': rnd.choice(['updateEvent', 'updateItem']), 'beh': rnd.choice(['ok', 'ok', 'raise', 'oneshot'])}
             if cbkey(cb) not in {cbkey(c) for c in regs}:
                 regs.append(cb)
-                steps.append({'ev': 'register', 'cb': cb})
+                steps.append({'ev': 'register', 'cb': cb, 'single': rnd.random() < 0.5})
+                if not steps[-1]['single'] and rnd.random() < 0.8:
+                    # ONE register_callback call with two callbacks (one-shot + permanent mixes)
+                    cb2 = {'level': lv, 'kind': 'updateItem' if cb['kind'] == 'updateEvent' else 'updateEvent',
+                           'beh': rnd.choice(['ok', 'ok', 'raise', 'oneshot'])}
+                    if cbkey(cb2) not in {cbkey(c) for c in regs}:
+                        regs.append(cb2)
+                        steps.append({'ev': 'register', 'cb': cb2})
         elif r < 0.82 and regs:
             cb = regs.pop(rnd.randrange(len(regs)))
             steps.append({'ev': 'unregister', 'cb': cb, 'maybe': True})
@@ -529,7 +576,7 @@ def _random_trace(seed_n):
     obs = w.run(w2.filtered(steps))
     trace = [{'ev': 'descr', 'desc': [list(k) for k in w2.first_desc], 'cache': []}]
     for st, o in zip(w2.done, obs):
-        ev = {k: v for k, v in st.items() if k != 'maybe'}
+        ev = {k: v for k, v in st.items() if k not in ('maybe', 'single')}
         ev['cache'] = [{'m': c[0], 'p': c[1], 'e': _rec(c[2:])} for c in o['cache']]
         ev['cbs'] = [{'level': c[0], 'kind': c[1], 'beh': c[2]} for c in o['cbs']]
         ev['waiting'] = o['waiting']
@@ -538,7 +585,10 @@ def _random_trace(seed_n):
             ev['released'] = o['released']
             ev['seen'] = [{'m': c[0], 'p': c[1], 'e': _rec(c[2:])} for c in o['seen']]
         elif st['ev'] == 'register':
-            ev['icalls'] = [{'m': c['m'], 'p': c['p'], 'e': _rec(c['e'])} for c in o['calls']]
+            ev['icalls'] = [{'m': c['m'], 'p': c['p'], 'e': _rec(c['e'])} for c in o['calls']
+                            if cbkey(c['cb']) == cbkey(st['cb'])]
+            ev['foreign'] = len(o['calls']) - len(ev['icalls'])    # calls of callbacks not being registered
+            ev['merged'] = bool(o.get('merged'))
         trace.append(ev)
     if w.stopped:
         trace.append({'ev': 'receive loop stopped', 'after': len(obs)})
@@ -1133,6 +1183,11 @@ def replay(chk, rep):
     elif 'trace' in d:
         w = MsgWorld(d['trace'][0]['desc'])
         steps = [{k: v for k, v in e.items() if k in ('ev', 'msg', 'cb', 'rk', 'now', 'desc')} for e in d['trace'][1:]]
+        prev = False
+        for st, e in zip(steps, d['trace'][1:]):     # same grouping of registrations as in the recorded run
+            if st['ev'] == 'register':
+                st['single'] = not (e.get('merged') or prev)
+                prev = bool(e.get('merged'))
         for s, o in zip(steps, w.run(steps)):
             print(s, '->', json.dumps(o, default=str))
         print('rejected at event', d['failed_at'])
